@@ -10,6 +10,8 @@ PROP = dict(
         "slice indexing inside projectedValues.values/compose is totalised (V.none / 0) in the model; out of range is "
         "unreachable for well-formed relations (rows have the heading's width) and would show as a panic in the correspondence run",
         "sort.Sort in Rank is modelled by an insertion sort; Value.Less on the generated keys (numbers) by V.cmp",
+        "well-formed Relation (RelWF): distinct names, identity projector p (every constructor in rel/ builds it so), rows of the "
+        "heading's width, at least one row; the append of the two output headings is modelled as a fresh list (the repaired code)",
     ],
     assumptions=[
         "attribute values are numbers (0..2, code points 97..99 under @char); nested relations only as produced by nest",
@@ -17,11 +19,17 @@ PROP = dict(
         "operands with two members under one index of an array/string/byte array heading are not generated; results of "
         "that shape are class KF-superimposed",
     ],
-    level_text="Proof: Lean theorems about a transliteration of the positional (Relation.Join, createMode and its five strategies) and generic "
-               "(RelationAttrs, GenericJoin, combine) join paths, nest/unnest/Reduce and Rank: each refines the relational definition "
-               "(set of merged agreeing tuples and its seven projections; nest groups without loss or invention, unnest inverts nest; rank = "
-               "number of rows with a strictly smaller key). The model is tied to the Go code by running both on generated arr.ai programs "
-               "(all operand representations, all heading partitions, exhaustive small headings) on every run.",
+    level_text="Proof: 27 Lean theorems. Spec level: the eight operators on values are well defined on rows, the seven other operators are "
+               "projections of <&>, nest loses/invents no row and its groups are disjoint on the key, unnest inverts nest. Impl level "
+               "(transliteration of the repaired Go code): the generic path (RelationAttrs, GenericJoin, the eight combine closures, SetBuilder) "
+               "and the positional path (Relation.Join: getIndices, compose, createMode, JoinKeepEverything, joinOneSide with its identity fast path, "
+               "JoinCommonOnly with its re-mapping, JoinIfCommonExist, the empty/literal-true short-cuts and the re-sugaring branch) each denote "
+               "Spec.join op for all eight operators, all headings (any class empty, any column order) and all well-formed operand representations; "
+               "createMode never panics on the eight partitions and selects a strategy whose side condition holds (finite Boolean table by case analysis); "
+               "both paths agree; Nest (nestWithFunc + Reduce) denotes Spec.nest; the Rank loop assigns the number of strictly smaller keys, also for "
+               "several rank attributes; join results are again well-formed operands, so the refinement chains through nested joins. Stated but "
+               "proved only on concrete witnesses (decide): Rank/Unnest/SingleAttrNest at representation level. The model is tied to the Go code by running both on generated arr.ai programs "
+               "(all operand representations, chained and shared joins, exhaustive small headings) on every run.",
     design_ref="DESIGN.md section 6, C04",
     watch=["rel.RelationAttrs", "rel.nestWithFunc", "rel.validNestOp", "rel.Nest", "rel.SingleAttrNest", "rel.Unnest", "rel.Reduce",
            "rel.Joiner", "rel.GenericJoin", "rel.NewJoinExpr", "rel.NewComposeExpr", "rel.NewJoinCommonExpr", "rel.NewJoinExistsExpr",
